@@ -193,7 +193,13 @@ func runProperty(p *Program, id string, cfg *PropCfg, timeout int) *checkResult 
 			res.structural = append(res.structural, &Obligation{Name: l + "#contract-unbound", Kind: "contract-unbound", Status: "failed", Note: "lemma listed under this property is missing from the contract files"})
 		}
 	}
-	res.jobs = p.runJobsL(fns, lemmas, SolverCfg{TimeoutMs: timeout, Dir: filepath.Join(verifRoot(), "replays", id), Keep: false})
+	quickOnly := map[string]bool{}
+	for k := range loadUndecided() {
+		if strings.HasPrefix(k, id+"|") {
+			quickOnly[strings.TrimPrefix(k, id+"|")] = true
+		}
+	}
+	res.jobs = p.runJobsL(fns, lemmas, SolverCfg{TimeoutMs: timeout, Dir: filepath.Join(verifRoot(), "replays", id), Keep: false, Quick: quickOnly})
 	for _, j := range res.jobs {
 		if j.Err != "" {
 			res.structural = append(res.structural, &Obligation{Name: j.Name + "#unsupported", Kind: "unsupported", Status: "failed", Note: j.Err, Job: j.Name})
